@@ -12,6 +12,9 @@ Proof. intros H. apply nth_error_app1. exact H. Qed.
 Lemma nth_error_app_new {A} (l e : list A) k : nth_error (l ++ e) (length l + k) = nth_error e k.
 Proof. rewrite nth_error_app2 by lia. f_equal. lia. Qed.
 
+Lemma nth_error_app_new0 {A} (l e : list A) : nth_error (l ++ e) (length l) = nth_error e 0.
+Proof. rewrite <- (nth_error_app_new l e 0). f_equal. lia. Qed.
+
 Lemma nth_error_upd {A} (l : list A) i j x :
   nth_error (upd l i x) j = if Nat.eqb i j then (if Nat.ltb i (length l) then Some x else None) else nth_error l j.
 Proof.
@@ -221,3 +224,871 @@ Proof.
 Qed.
 
 Definition disjoint (a b : list ref) : Prop := forall r, In r a -> ~ In r b.
+
+(* ================================================================= observations *)
+(* obs: kind, phase(s), flows, T, P;   obs+ adds price, characterization factors, ID *)
+Definition obs (h : heap) (s : stream) :=
+  let o := observe h s [] in (o_multi o, o_phases o, o_rows o, o_T o, o_P o).
+Definition obs_plus (h : heap) (s : stream) :=
+  let o := observe h s [] in (o_multi o, o_phases o, o_rows o, o_T o, o_P o, o_price o, o_cf o, o_id o).
+
+Lemma obs_of_observe h h' s s' : observe h s [] = observe h' s' [] -> obs h s = obs h' s'.
+Proof. unfold obs. intros ->. reflexivity. Qed.
+
+(* ================================================================= allocation of row vectors *)
+Lemma map_rdvec_alloc h vs rest : map (rdvec (h ++ map CVec vs ++ rest)) (seq (length h) (length vs)) = vs.
+Proof.
+  revert h; induction vs as [|v vs IH]; intros h; simpl; [reflexivity|]. f_equal.
+  - unfold rdvec. rewrite nth_error_app2 by lia. rewrite Nat.sub_diag. reflexivity.
+  - specialize (IH (h ++ [CVec v])). rewrite app_length in IH. simpl in IH.
+    replace (length h + 1) with (S (length h)) in IH by lia. rewrite <- app_assoc in IH. exact IH.
+Qed.
+
+Lemma kind_alloc h vs rest : Forall (fun r => is_kind (h ++ map CVec vs ++ rest) r 0) (seq (length h) (length vs)).
+Proof.
+  revert h; induction vs as [|v vs IH]; intros h; simpl; constructor.
+  - exists (CVec v). split; auto. rewrite nth_error_app2 by lia. rewrite Nat.sub_diag. reflexivity.
+  - specialize (IH (h ++ [CVec v])). rewrite app_length in IH. simpl in IH.
+    replace (length h + 1) with (S (length h)) in IH by lia. rewrite <- app_assoc in IH. exact IH.
+Qed.
+
+Lemma in_seq_ge a n r : In r (seq a n) -> a <= r.
+Proof. intros H. apply in_seq in H. lia. Qed.
+
+(* ================================================================= copy *)
+Lemma tc_copy_ok h r T P : nth_error h r = Some (CTC T P) -> forall h' t, tc_copy h r = Ok (h', t) ->
+  h' = h ++ [CTC T P] /\ t = length h.
+Proof.
+  intros H h' t. unfold tc_copy, rdtc. rewrite H. destruct (tc_valid T P); intros E; inversion E; auto.
+Qed.
+
+Lemma copy_lemma h s h2 c : hwf h -> swf h s -> copy h s = Ok (h2, c) ->
+  (exists e, h2 = h ++ e) /\ hwf h2 /\ swf h2 c /\
+  obs h2 c = obs h s /\ obs h2 s = obs h s /\ footprint h2 s = footprint h s /\
+  (forall r, In r (footprint h2 c) -> length h <= r).
+Proof.
+  intros W SW C.
+  assert (ORIG : forall e, obs (h ++ e) s = obs h s /\ footprint (h ++ e) s = footprint h s).
+  { intros e. destruct (stream_stable h (h ++ e) [] s [] W SW (frame_app _ _ _)) as [A B]; [intros r _ []|].
+    split; auto. apply obs_of_observe; auto. }
+  destruct (swf_cases _ _ SW) as [[(k & pb & d & Hi)|(k & phs & d & Hi)] (T & P & Ht)]; unfold copy, imol_copy in C; rewrite Hi in C.
+  - (* single phase *)
+    unfold chem_new in C. cbn [bind] in C.
+    destruct (tc_copy _ (tc s)) as [[h3 t]|] eqn:TC; cbn [bind] in C; [|discriminate].
+    eapply tc_copy_ok in TC; [|rewrite nth_error_app_l; [exact Ht|eapply nth_error_some_lt; eauto]].
+    destruct TC as [-> ->]. inversion C; subst h2 c; clear C.
+    rewrite <- app_assoc. simpl app.
+    set (e := [CPhase (rdphase h pb); CVec (rdvec h d); CIdxC k (length h) (S (length h)); CTC T P]).
+    assert (N0 : nth_error (h ++ e) (length h) = Some (CPhase (rdphase h pb))).
+    { rewrite nth_error_app_new0. reflexivity. }
+    assert (N1 : nth_error (h ++ e) (S (length h)) = Some (CVec (rdvec h d))).
+    { replace (S (length h)) with (length h + 1) by lia. rewrite nth_error_app_new. reflexivity. }
+    assert (N2 : nth_error (h ++ e) (S (S (length h))) = Some (CIdxC k (length h) (S (length h)))).
+    { replace (S (S (length h))) with (length h + 2) by lia. rewrite nth_error_app_new. reflexivity. }
+    assert (N3 : nth_error (h ++ e) (length (h ++ [CPhase (rdphase h pb); CVec (rdvec h d); CIdxC k (length h) (S (length h))])) = Some (CTC T P)).
+    { rewrite app_length. simpl length. rewrite nth_error_app_new. reflexivity. }
+    destruct (ORIG e) as [O1 O2].
+    split; [eauto|]. split; [|split; [|split; [|split; [|split]]]]; auto.
+    + apply hwf_app; auto. intros c [<-|[<-|[<-|[<-|[]]]]]; simpl; auto.
+      split; [exists (CPhase (rdphase h pb))|exists (CVec (rdvec h d))]; auto.
+    + split; simpl; [left; eexists; split; [exact N2|reflexivity]|eexists; split; [exact N3|reflexivity]].
+    + unfold obs, observe. simpl imol; simpl tc. rewrite N2, Hi. unfold rdtc. rewrite N3, Ht.
+      unfold rdphase, rdvec. rewrite N0, N1. reflexivity.
+    + intros r. unfold footprint. simpl imol; simpl tc. rewrite N2. rewrite app_length. simpl.
+      intros [<-|[<-|[<-|[<-|[]]]]]; lia.
+  - (* multi-phase *)
+    unfold arr_copy, alloc_vecs in C. cbn [bind] in C.
+    destruct (tc_copy _ (tc s)) as [[h3 t]|] eqn:TC; cbn [bind] in C; [|discriminate].
+    assert (LT : tc s < length h) by (eapply nth_error_some_lt; eauto).
+    eapply tc_copy_ok in TC; [|rewrite !nth_error_app_l; try exact Ht; rewrite ?app_length; lia].
+    destruct TC as [-> ->]. inversion C; subst h2 c; clear C.
+    set (vs := map (rdvec h) (rdrows h d)).
+    set (n := length h). set (m := length vs).
+    assert (LV : length (h ++ map CVec vs) = n + m) by (rewrite app_length, map_length; reflexivity).
+    rewrite LV.
+    set (e := map CVec vs ++ [CArr (seq n m); CIdxM k phs (n + m); CTC T P]).
+    assert (HE : ((h ++ map CVec vs) ++ [CArr (seq n m)]) ++ [CIdxM k phs (n + m)]
+                 = h ++ map CVec vs ++ [CArr (seq n m); CIdxM k phs (n + m)]).
+    { rewrite <- !app_assoc. reflexivity. }
+    assert (HE2 : (((h ++ map CVec vs) ++ [CArr (seq n m)]) ++ [CIdxM k phs (n + m)]) ++ [CTC T P] = h ++ e).
+    { unfold e. rewrite <- !app_assoc. reflexivity. }
+    rewrite HE2.
+    assert (LA : length ((h ++ map CVec vs) ++ [CArr (seq n m)]) = n + m + 1).
+    { rewrite app_length, LV. reflexivity. }
+    assert (LB : length (((h ++ map CVec vs) ++ [CArr (seq n m)]) ++ [CIdxM k phs (n + m)]) = n + m + 2).
+    { rewrite app_length, LA. simpl. lia. }
+    rewrite LA, LB.
+    assert (NEW : forall j c, nth_error [CArr (seq n m); CIdxM k phs (n + m); CTC T P] j = Some c ->
+                         nth_error (h ++ e) (n + m + j) = Some c).
+    { intros j c Hj. unfold e. rewrite app_assoc.
+      replace (n + m + j) with (length (h ++ map CVec vs) + j) by (rewrite LV; lia).
+      rewrite nth_error_app_new. exact Hj. }
+    assert (N1 : nth_error (h ++ e) (n + m) = Some (CArr (seq n m))).
+    { replace (n + m) with (n + m + 0) by lia. apply NEW. reflexivity. }
+    assert (N2 : nth_error (h ++ e) (n + m + 1) = Some (CIdxM k phs (n + m))) by (apply NEW; reflexivity).
+    assert (N3 : nth_error (h ++ e) (n + m + 2) = Some (CTC T P)) by (apply NEW; reflexivity).
+    assert (RV : map (rdvec (h ++ e)) (seq n m) = vs) by (unfold e, n, m; apply map_rdvec_alloc).
+    assert (KV : Forall (fun r => is_kind (h ++ e) r 0) (seq n m)) by (unfold e, n, m; apply kind_alloc).
+    destruct (ORIG e) as [O1 O2].
+    split; [eauto|]. split; [|split; [|split; [|split; [|split]]]]; auto.
+    + apply hwf_app; auto. intros c Hc. unfold e in Hc. apply in_app_or in Hc. destruct Hc as [Hc|[<-|[<-|[<-|[]]]]]; simpl; auto.
+      * apply in_map_iff in Hc. destruct Hc as (v & <- & _). exact I.
+      * eexists; split; [exact N1|reflexivity].
+    + split; simpl; [right; eexists; split; [exact N2|reflexivity]|eexists; split; [exact N3|reflexivity]].
+    + unfold obs, observe. simpl imol; simpl tc. rewrite N2, Hi. unfold rdtc. rewrite N3, Ht.
+      cbn [o_multi o_phases o_rows o_T o_P]. unfold rdrows at 1. rewrite N1. rewrite RV. reflexivity.
+    + intros r. unfold footprint. simpl imol; simpl tc. rewrite N2. unfold rdrows. rewrite N1.
+      intros [<-|[<-|Hr]]; try lia. apply in_app_or in Hr. destruct Hr as [Hr|[<-|[]]]; [|lia].
+      apply in_seq_ge in Hr. exact Hr.
+Qed.
+
+(* ================================================================= local operations *)
+(* an operation on stream s that reaches (h', s') is local when it only writes cells of s (or fresh ones),
+   keeps the heap typed, and the cells s' reaches afterwards are old cells of s or fresh ones *)
+Record local (h : heap) (s : stream) (h' : heap) (s' : stream) : Prop := {
+  l_ext : ext h h';
+  l_hwf : hwf h';
+  l_swf : swf h' s';
+  l_frame : frame h h' (footprint h s);
+  l_fp : forall r, In r (footprint h' s') -> In r (footprint h s) \/ length h <= r }.
+
+Lemma local_refl h s : hwf h -> swf h s -> local h s h s.
+Proof. intros W SW. constructor; auto using ext_refl, frame_refl. Qed.
+
+Lemma local_trans h s h1 s1 h2 s2 : local h s h1 s1 -> local h1 s1 h2 s2 -> local h s h2 s2.
+Proof.
+  intros [E1 W1 S1 F1 P1] [E2 W2 S2 F2 P2]. pose proof (ext_length _ _ E1) as L.
+  constructor; auto.
+  - eapply ext_trans; eauto.
+  - eapply frame_trans; eauto.
+  - intros r Hr. destruct (P2 _ Hr) as [A|A]; [auto|right; lia].
+Qed.
+
+(* a stream that shares nothing with the target of a local operation does not notice it *)
+Lemma local_sep h s h' s' y : hwf h -> swf h s -> swf h y -> local h s h' s' ->
+  disjoint (footprint h y) (footprint h s) ->
+  obs h' y = obs h y /\ footprint h' y = footprint h y /\ swf h' y /\
+  disjoint (footprint h' y) (footprint h' s').
+Proof.
+  intros W SW SY [E W' S' FR FP] D.
+  destruct (stream_stable h h' (footprint h s) y [] W SY FR D) as [A B].
+  split; [apply obs_of_observe; auto|]. split; auto. split; [eapply swf_ext; eauto|].
+  intros r Hr Hs. rewrite A in Hr. destruct (FP _ Hs) as [X|X].
+  - exact (D _ Hr X).
+  - pose proof (footprint_lt _ _ _ W SY Hr). lia.
+Qed.
+
+Lemma tc_in_fp h s : In (tc s) (footprint h s).
+Proof.
+  unfold footprint. destruct (nth_error h (imol s)) as [[]|]; simpl; auto.
+  right; right. apply in_or_app. right. simpl; auto.
+Qed.
+Lemma imol_in_fp h s : In (imol s) (footprint h s).
+Proof. unfold footprint. destruct (nth_error h (imol s)) as [[]|]; simpl; auto. Qed.
+
+Lemma leaf_cell_ok h c : (kind c = 0 \/ kind c = 2 \/ kind c = 3) -> cell_ok h c.
+Proof. destruct c; simpl; intros [H|[H|H]]; try discriminate; exact I. Qed.
+
+(* writing a vector, a phase box or a thermal condition does not change who reaches what *)
+Lemma footprint_leaf_write h y r c k : hwf h -> swf h y -> is_kind h r k -> (k = 0 \/ k = 2 \/ k = 3) ->
+  footprint (wr h r c) y = footprint h y.
+Proof.
+  intros W SY K KK.
+  destruct (swf_cases _ _ SY) as [[(k0 & pb & d & Hi)|(k0 & phs & d & Hi)] _].
+  - assert (N : r <> imol y).
+    { intros ->. assert (is_kind h (imol y) 4) by (eexists; split; [exact Hi|reflexivity]).
+      pose proof (is_kind_fun _ _ _ _ K H). lia. }
+    unfold footprint. rewrite wr_other by auto. rewrite Hi. reflexivity.
+  - assert (N : r <> imol y).
+    { intros ->. assert (is_kind h (imol y) 5) by (eexists; split; [exact Hi|reflexivity]).
+      pose proof (is_kind_fun _ _ _ _ K H). lia. }
+    destruct (footprint_multi _ _ _ _ _ W Hi) as [Kd _].
+    assert (N2 : r <> d). { intros ->. pose proof (is_kind_fun _ _ _ _ K Kd). lia. }
+    unfold footprint. rewrite wr_other by auto. rewrite Hi. unfold rdrows. rewrite wr_other by auto. reflexivity.
+Qed.
+
+Lemma leaf_write_local h s r c k : hwf h -> swf h s -> In r (footprint h s) -> is_kind h r k -> kind c = k ->
+  (k = 0 \/ k = 2 \/ k = 3) -> local h s (wr h r c) s.
+Proof.
+  intros W SW I K KC KK.
+  assert (HK : forall c0, nth_error h r = Some c0 -> kind c0 = kind c).
+  { intros c0 H0. destruct K as (c1 & H1 & K1). congruence. }
+  pose proof (ext_wr h r c HK) as E.
+  constructor; auto.
+  - apply hwf_wr; auto. apply leaf_cell_ok. rewrite KC. exact KK.
+  - eapply swf_ext; eauto.
+  - apply frame_wr. auto.
+  - intros r'. erewrite footprint_leaf_write; eauto.
+Qed.
+
+Lemma data_rows_fp h s r : hwf h -> swf h s -> In r (data_rows h s) -> In r (footprint h s) /\ is_kind h r 0.
+Proof.
+  intros W SW I. unfold data_rows in I.
+  destruct (swf_cases _ _ SW) as [[(k & pb & d & Hi)|(k & phs & d & Hi)] _]; rewrite Hi in I.
+  - destruct I as [<-|[]]. destruct (footprint_chem _ _ _ _ _ W Hi). split; auto.
+    unfold footprint. rewrite Hi. simpl; auto.
+  - destruct (footprint_multi _ _ _ _ _ W Hi) as [_ KR]. rewrite Forall_forall in KR. split; auto.
+    unfold footprint. rewrite Hi. simpl. right; right. apply in_or_app; auto.
+Qed.
+
+Lemma wrvecs_local rs f : forall h s, hwf h -> swf h s ->
+  (forall r, In r rs -> In r (footprint h s) /\ is_kind h r 0) -> local h s (wrvecs h rs f) s.
+Proof.
+  induction rs as [|r rs IH]; intros h s W SW H; simpl.
+  - apply local_refl; auto.
+  - destruct (H r (or_introl eq_refl)) as [I K].
+    assert (L1 : local h s (wr h r (CVec (f (rdvec h r)))) s) by (eapply leaf_write_local; eauto).
+    eapply local_trans; [exact L1|]. unfold wrvecs in IH. apply IH.
+    + apply L1. + apply L1.
+    + intros r' Hr'. destruct (H r' (or_intror Hr')) as [I' K']. split.
+      * erewrite footprint_leaf_write; eauto.
+      * apply (l_ext _ _ _ _ L1). exact K'.
+Qed.
+
+(* ---------- the mutators of the property ---------- *)
+Section Mutators.
+Variable pk : list (list nat).
+
+Inductive mut :=
+| MSetFlow (r c : nat) (v : Q) | MSetT (v : Q) | MSetP (v : Q) | MSetPhase (p : nat) | MScale (k : Q) | MEmpty
+| MCopyTC (o : stream) | MCopyPhase (o : stream).
+
+Definition apply_mut (h : heap) (s : stream) (m : mut) : oret :=
+  match m with
+  | MSetFlow r c v => set_flow h s r c v
+  | MSetT v => set_T h s v
+  | MSetP v => set_P h s v
+  | MSetPhase p => set_phase pk h s p
+  | MScale k => scale h s k
+  | MEmpty => empty h s
+  | MCopyTC o => copy_tc h s o
+  | MCopyPhase o => copy_phase h s o
+  end.
+
+Lemma tc_write_local h s T P : hwf h -> swf h s -> local h s (wr h (tc s) (CTC T P)) s.
+Proof.
+  intros W SW. eapply leaf_write_local with (k := 3); eauto using tc_in_fp.
+  - apply SW.
+Qed.
+
+Lemma mut_local h s m h' s' e : hwf h -> swf h s -> apply_mut h s m = (h', s', e) -> local h s h' s'.
+Proof.
+  intros W SW A. destruct m; simpl in A.
+  - (* set_flow *)
+    unfold set_flow in A. destruct (nth_error (data_rows h s) r) as [x|] eqn:Q; inversion A; subst.
+    + apply nth_error_In in Q. destruct (data_rows_fp _ _ _ W SW Q) as [I K].
+      eapply leaf_write_local with (k := 0); eauto.
+    + apply local_refl; auto.
+  - unfold set_T in A. inversion A; subst. apply tc_write_local; auto.
+  - unfold set_P in A. inversion A; subst. apply tc_write_local; auto.
+  - (* set_phase *)
+    unfold set_phase in A.
+    destruct (swf_cases _ _ SW) as [[(k & pb & d & Hi)|(k & phs & d & Hi)] (T & P & Ht)]; rewrite Hi in A.
+    + destruct (valid_phase p); inversion A; subst; [|apply local_refl; auto].
+      destruct (footprint_chem _ _ _ _ _ W Hi) as [Kp Kd].
+      eapply leaf_write_local with (k := 2); eauto. unfold footprint. rewrite Hi. simpl; auto.
+    + unfold mat_to_chemical in A. rewrite Hi in A. unfold chem_new in A. inversion A; subst; clear A.
+      set (v := fold_left _ _ _).
+      set (e0 := [CPhase p; CVec v; CIdxC k (length h) (S (length h))]).
+      assert (N0 : nth_error (h ++ e0) (length h) = Some (CPhase p)) by (rewrite nth_error_app_new0; reflexivity).
+      assert (N1 : nth_error (h ++ e0) (S (length h)) = Some (CVec v)).
+      { replace (S (length h)) with (length h + 1) by lia. rewrite nth_error_app_new. reflexivity. }
+      assert (N2 : nth_error (h ++ e0) (S (S (length h))) = Some (CIdxC k (length h) (S (length h)))).
+      { replace (S (S (length h))) with (length h + 2) by lia. rewrite nth_error_app_new. reflexivity. }
+      constructor.
+      * apply ext_app.
+      * apply hwf_app; auto. intros c [<-|[<-|[<-|[]]]]; simpl; auto.
+        split; [exists (CPhase p)|exists (CVec v)]; auto.
+      * split; simpl; [left; eexists; split; [exact N2|reflexivity]|]. apply (ext_app h e0). apply SW.
+      * apply frame_app.
+      * intros r. unfold footprint. simpl imol; simpl tc. rewrite N2. intros [<-|[<-|[<-|[<-|[]]]]]; try (right; lia).
+        left. apply tc_in_fp.
+  - unfold scale in A. inversion A; subst. apply wrvecs_local; auto. intros r. apply data_rows_fp; auto.
+  - unfold empty in A. inversion A; subst. apply wrvecs_local; auto. intros r. apply data_rows_fp; auto.
+  - unfold copy_tc, tc_copy_like in A. destruct (rdtc h (tc o)) as [T P]. inversion A; subst.
+    apply tc_write_local; auto.
+  - (* copy_phase *)
+    unfold copy_phase in A.
+    destruct (nth_error h (imol o)) as [[| | | |ko pbo od|]|]; try (inversion A; subst; apply local_refl; auto).
+    destruct (swf_cases _ _ SW) as [[(k & pb & d & Hi)|(k & phs & d & Hi)] _]; rewrite Hi in A;
+      inversion A; subst; [|apply local_refl; auto].
+    destruct (footprint_chem _ _ _ _ _ W Hi) as [Kp Kd].
+    eapply leaf_write_local with (k := 2); eauto. unfold footprint. rewrite Hi. simpl; auto.
+Qed.
+
+(* ---------- histories on a separated pair: no step on one is visible in the other ---------- *)
+Fixpoint indep_trace (h : heap) (a b : stream) (hist : list (bool * mut)) : Prop :=
+  match hist with
+  | [] => disjoint (footprint h a) (footprint h b)
+  | (true, m) :: t => let '(h', a', _) := apply_mut h a m in obs h' b = obs h b /\ indep_trace h' a' b t
+  | (false, m) :: t => let '(h', b', _) := apply_mut h b m in obs h' a = obs h a /\ indep_trace h' a b' t
+  end.
+
+Lemma disjoint_sym a b : disjoint a b -> disjoint b a.
+Proof. intros D r Hb Ha. exact (D r Ha Hb). Qed.
+
+Lemma indep_lemma hist : forall h a b, hwf h -> swf h a -> swf h b ->
+  disjoint (footprint h a) (footprint h b) -> indep_trace h a b hist.
+Proof.
+  induction hist as [|[[|] m] t IH]; intros h a b W SA SB D; simpl; auto.
+  - destruct (apply_mut h a m) as [[h' a'] e] eqn:A.
+    pose proof (mut_local _ _ _ _ _ _ W SA A) as L.
+    destruct (local_sep h a h' a' b W SA SB L (disjoint_sym _ _ D)) as (O & _ & SB' & D').
+    split; auto. apply IH; auto; try apply L. apply disjoint_sym; auto.
+  - destruct (apply_mut h b m) as [[h' b'] e] eqn:A.
+    pose proof (mut_local _ _ _ _ _ _ W SB A) as L.
+    destruct (local_sep h b h' b' a W SB SA L D) as (O & _ & SA' & D').
+    split; auto. apply IH; auto; try apply L.
+Qed.
+
+End Mutators.
+
+(* ================================================================= sharing: proxy, flow_proxy, link_with, unlink *)
+Definition shared (h : heap) (a b : stream) (r : ref) : Prop := In r (footprint h a) /\ In r (footprint h b).
+
+(* the cells holding flow data: the vector, or the array and its rows *)
+Definition data_cells (h : heap) (s : stream) : list ref :=
+  match nth_error h (imol s) with
+  | Some (CIdxC _ _ d) => [d]
+  | Some (CIdxM _ _ d) => d :: rdrows h d
+  | _ => []
+  end.
+Definition phase_cells (h : heap) (s : stream) : list ref :=
+  match nth_error h (imol s) with Some (CIdxC _ pb _) => [pb] | _ => [] end.
+
+Lemma proxy_lemma h s h' p : proxy h s = Ok (h', p) ->
+  h' = h /\ imol p = imol s /\ tc p = tc s /\
+  (forall h2, footprint h2 p = footprint h2 s) /\ (forall h2, obs h2 p = obs h2 s).
+Proof.
+  unfold proxy. intros E. inversion E; subst. repeat split; auto.
+  intros h2. unfold obs, observe. simpl. destruct (rdtc h2 (tc s)). destruct (nth_error h2 (imol s)) as [[]|]; reflexivity.
+Qed.
+
+(* the indexer cell of a stream is none of the cells of a stream with another indexer *)
+Lemma imol_not_in_fp h a b : hwf h -> swf h a -> swf h b -> imol a <> imol b -> ~ In (imol a) (footprint h b).
+Proof.
+  intros W SA SB N I.
+  assert (KA : is_kind h (imol a) 4 \/ is_kind h (imol a) 5) by apply SA.
+  assert (X : forall k, is_kind h (imol a) k -> k = 4 \/ k = 5).
+  { intros k K. destruct KA as [A|A]; pose proof (is_kind_fun _ _ _ _ K A); lia. }
+  destruct (swf_cases _ _ SB) as [[(k & pb & d & Hi)|(k & phs & d & Hi)] (T & P & Ht)].
+  - destruct (footprint_chem _ _ _ _ _ W Hi) as [Kp Kd]. unfold footprint in I. rewrite Hi in I. simpl in I.
+    destruct I as [E|[E|[E|[E|[]]]]]; try congruence.
+    + rewrite E in Kd. apply X in Kd. lia.
+    + rewrite E in Kp. apply X in Kp. lia.
+    + assert (K : is_kind h (imol a) 3) by (rewrite <- E; eexists; split; [exact Ht|reflexivity]). apply X in K. lia.
+  - destruct (footprint_multi _ _ _ _ _ W Hi) as [Kd Kr]. unfold footprint in I. rewrite Hi in I. simpl in I.
+    destruct I as [E|[E|I]]; try congruence.
+    + rewrite E in Kd. apply X in Kd. lia.
+    + apply in_app_or in I. destruct I as [I|[E|[]]].
+      * rewrite Forall_forall in Kr. apply Kr in I. apply X in I. lia.
+      * assert (K : is_kind h (imol a) 3) by (rewrite <- E; eexists; split; [exact Ht|reflexivity]). apply X in K. lia.
+Qed.
+
+(* ---------- unlink ---------- *)
+Lemma unlink_lemma h a b h' a' : hwf h -> swf h a -> swf h b -> imol a <> imol b ->
+  unlink h a = (h', a', None) ->
+  disjoint (footprint h' a') (footprint h' b) /\ obs h' a' = obs h a /\ obs h' b = obs h b /\
+  hwf h' /\ swf h' a' /\ swf h' b.
+Proof.
+  intros W SA SB N U.
+  pose proof (imol_not_in_fp _ _ _ W SA SB N) as NI.
+  assert (LI : imol a < length h) by (apply (footprint_lt h a); auto; apply imol_in_fp).
+  assert (STB : forall h2, frame h h2 [imol a] -> footprint h2 b = footprint h b /\ obs h2 b = obs h b).
+  { intros h2 FR. destruct (stream_stable h h2 [imol a] b [] W SB FR) as [A B].
+    - intros r Hr [<-|[]]. contradiction.
+    - split; auto. apply obs_of_observe; auto. }
+  destruct (swf_cases _ _ SA) as [[(k & pb & d & Hi)|(k & phs & d & Hi)] (T & P & Ht)]; unfold unlink in U; rewrite Hi in U.
+  - (* single phase *)
+    set (e1 := [CPhase (rdphase h pb); CVec (rdvec h d)]) in *.
+    set (h2 := wr (h ++ e1) (imol a) (CIdxC k (length h) (S (length h)))) in *.
+    assert (Ht2 : nth_error h2 (tc a) = Some (CTC T P)).
+    { unfold h2. rewrite wr_other. - rewrite nth_error_app_l; eauto using nth_error_some_lt.
+      - intros E. rewrite E in Hi. congruence. }
+    destruct (tc_copy h2 (tc a)) as [[h3 t]|] eqn:TC; [|discriminate].
+    destruct (tc_copy_ok _ _ _ _ Ht2 _ _ TC) as [-> ->]. inversion U; subst h' a'; clear U.
+    assert (L2 : length h2 = S (S (length h))).
+    { unfold h2. rewrite wr_length, app_length. simpl. lia. }
+    assert (Ni : nth_error (h2 ++ [CTC T P]) (imol a) = Some (CIdxC k (length h) (S (length h)))).
+    { rewrite nth_error_app_l by lia. unfold h2. apply wr_same. rewrite app_length. lia. }
+    assert (N0 : nth_error (h2 ++ [CTC T P]) (length h) = Some (CPhase (rdphase h pb))).
+    { rewrite nth_error_app_l by lia. unfold h2. rewrite wr_other by lia. rewrite nth_error_app_new0. reflexivity. }
+    assert (N1 : nth_error (h2 ++ [CTC T P]) (S (length h)) = Some (CVec (rdvec h d))).
+    { rewrite nth_error_app_l by lia. unfold h2. rewrite wr_other by lia.
+      replace (S (length h)) with (length h + 1) by lia. rewrite nth_error_app_new. reflexivity. }
+    assert (N3 : nth_error (h2 ++ [CTC T P]) (length h2) = Some (CTC T P)) by (rewrite nth_error_app_new0; reflexivity).
+    assert (FR : frame h (h2 ++ [CTC T P]) [imol a]).
+    { intros r Lr Nr. rewrite nth_error_app_l by lia. unfold h2. rewrite wr_other.
+      - apply nth_error_app_l; auto. - intros <-. apply Nr. simpl; auto. }
+    destruct (STB _ FR) as [FB OB].
+    assert (EX : ext h (h2 ++ [CTC T P])).
+    { eapply ext_trans; [apply ext_app|]. eapply ext_trans; [|apply ext_app]. unfold h2. apply ext_wr.
+      intros c0 H0. rewrite nth_error_app_l in H0 by auto. rewrite Hi in H0. inversion H0; reflexivity. }
+    assert (FA : footprint (h2 ++ [CTC T P]) (set_tc a (length h2)) = [imol a; S (length h); length h; length h2]).
+    { unfold footprint. simpl imol; simpl tc. rewrite Ni. reflexivity. }
+    split; [|split; [|split; [|split; [|split]]]]; auto.
+    + intros r. rewrite FA, FB. intros [<-|[<-|[<-|[<-|[]]]]] Hb; try contradiction;
+        pose proof (footprint_lt _ _ _ W SB Hb); lia.
+    + unfold obs, observe. simpl imol; simpl tc. rewrite Ni, Hi. unfold rdtc. rewrite N3, Ht.
+      cbn [o_multi o_phases o_rows o_T o_P]. unfold rdphase at 1. unfold rdvec at 1. rewrite N0, N1. reflexivity.
+    + intros r c Hc. destruct (Nat.lt_ge_cases r (length h)) as [Lr|Gr].
+      * destruct (Nat.eq_dec r (imol a)) as [->|Nr].
+        -- rewrite Ni in Hc. inversion Hc; subst. simpl. split; eexists; split; eauto.
+        -- rewrite FR in Hc; auto; [|intros [E|[]]; congruence]. eapply cell_ok_ext; eauto.
+      * assert (r = length h \/ r = S (length h) \/ r = length h2).
+        { apply nth_error_some_lt in Hc. rewrite app_length in Hc. simpl in Hc. lia. }
+        destruct H as [-> | [-> | ->]]; [rewrite N0 in Hc|rewrite N1 in Hc|rewrite N3 in Hc]; inversion Hc; exact I.
+    + split; simpl; [left; eexists; split; [exact Ni|reflexivity]|eexists; split; [exact N3|reflexivity]].
+    + eapply swf_ext; eauto.
+  - (* multi-phase *)
+    unfold arr_copy, alloc_vecs in U.
+    set (vs := map (rdvec h) (rdrows h d)) in *.
+    set (n := length h) in *. set (m := length vs) in *.
+    assert (LV : length (h ++ map CVec vs) = n + m) by (rewrite app_length, map_length; reflexivity).
+    rewrite LV in U.
+    set (h1 := (h ++ map CVec vs) ++ [CArr (seq n m)]) in *.
+    assert (H1E : h1 = h ++ map CVec vs ++ [CArr (seq n m)]) by (unfold h1; rewrite <- app_assoc; reflexivity).
+    set (h2 := wr h1 (imol a) (CIdxM k phs (n + m))) in *.
+    assert (L1 : length h1 = n + m + 1) by (unfold h1; rewrite app_length, LV; reflexivity).
+    assert (L2 : length h2 = n + m + 1) by (unfold h2; rewrite wr_length; exact L1).
+    assert (Ht2 : nth_error h2 (tc a) = Some (CTC T P)).
+    { unfold h2. rewrite wr_other. - rewrite H1E. rewrite nth_error_app_l; eauto using nth_error_some_lt.
+      - intros E. rewrite E in Hi. congruence. }
+    destruct (tc_copy h2 (tc a)) as [[h3 t]|] eqn:TC; [|discriminate].
+    destruct (tc_copy_ok _ _ _ _ Ht2 _ _ TC) as [-> ->]. inversion U; subst h' a'; clear U.
+    assert (Ni : nth_error (h2 ++ [CTC T P]) (imol a) = Some (CIdxM k phs (n + m))).
+    { rewrite nth_error_app_l by lia. unfold h2. apply wr_same. lia. }
+    assert (OLD : forall r, r <> imol a -> nth_error (h2 ++ [CTC T P]) r = nth_error (h1 ++ [CTC T P]) r).
+    { intros r Nr. destruct (Nat.lt_ge_cases r (length h2)).
+      - rewrite !nth_error_app_l by lia. unfold h2. apply wr_other. auto.
+      - rewrite !nth_error_app2 by lia. rewrite L1, L2. reflexivity. }
+    assert (H1T : h1 ++ [CTC T P] = h ++ map CVec vs ++ [CArr (seq n m); CTC T P]).
+    { rewrite H1E. rewrite <- !app_assoc. reflexivity. }
+    assert (N1 : nth_error (h2 ++ [CTC T P]) (n + m) = Some (CArr (seq n m))).
+    { rewrite OLD by lia. rewrite H1T. rewrite app_assoc. rewrite <- LV. rewrite nth_error_app_new0. reflexivity. }
+    assert (N3 : nth_error (h2 ++ [CTC T P]) (length h2) = Some (CTC T P)) by (rewrite nth_error_app_new0; reflexivity).
+    assert (RV : map (rdvec (h2 ++ [CTC T P])) (seq n m) = vs).
+    { transitivity (map (rdvec (h ++ map CVec vs ++ [CArr (seq n m); CTC T P])) (seq n m)).
+      - apply map_ext_in. intros r Hr. apply in_seq in Hr. unfold rdvec. rewrite OLD by lia. rewrite H1T. reflexivity.
+      - apply map_rdvec_alloc. }
+    assert (KV : Forall (fun r => is_kind (h2 ++ [CTC T P]) r 0) (seq n m)).
+    { pose proof (kind_alloc h vs [CArr (seq n m); CTC T P]) as K. fold n m in K. rewrite Forall_forall in *.
+      intros r Hr. destruct (K r Hr) as (c & Hc & Kc). exists c. split; auto. apply in_seq in Hr.
+      rewrite OLD by lia. rewrite H1T. exact Hc. }
+    assert (FR : frame h (h2 ++ [CTC T P]) [imol a]).
+    { intros r Lr Nr. rewrite OLD by (intros ->; apply Nr; simpl; auto). rewrite H1T. apply nth_error_app_l; auto. }
+    destruct (STB _ FR) as [FB OB].
+    assert (EX : ext h (h2 ++ [CTC T P])).
+    { eapply ext_trans; [apply (ext_app h (map CVec vs ++ [CArr (seq n m)]))|]. rewrite <- H1E.
+      eapply ext_trans; [|apply ext_app]. unfold h2. apply ext_wr.
+      intros c0 H0. rewrite H1E in H0. rewrite nth_error_app_l in H0 by auto. rewrite Hi in H0. inversion H0; reflexivity. }
+    assert (FA : footprint (h2 ++ [CTC T P]) (set_tc a (length h2)) = imol a :: (n + m) :: seq n m ++ [length h2]).
+    { unfold footprint. simpl imol; simpl tc. rewrite Ni. unfold rdrows. rewrite N1. reflexivity. }
+    split; [|split; [|split; [|split; [|split]]]]; auto.
+    + intros r. rewrite FA, FB. intros [<-|[<-|Hr]] Hb; try contradiction.
+      * pose proof (footprint_lt _ _ _ W SB Hb). lia.
+      * pose proof (footprint_lt _ _ _ W SB Hb). apply in_app_or in Hr. destruct Hr as [Hr|[<-|[]]]; [|lia].
+        apply in_seq in Hr. lia.
+    + unfold obs, observe. simpl imol; simpl tc. rewrite Ni, Hi. unfold rdtc. rewrite N3, Ht.
+      cbn [o_multi o_phases o_rows o_T o_P]. unfold rdrows at 1. rewrite N1, RV. reflexivity.
+    + intros r c Hc. destruct (Nat.lt_ge_cases r (length h)) as [Lr|Gr].
+      * destruct (Nat.eq_dec r (imol a)) as [->|Nr].
+        -- rewrite Ni in Hc. inversion Hc; subst. simpl. eexists; split; [exact N1|reflexivity].
+        -- rewrite FR in Hc; auto; [|intros [E|[]]; congruence]. eapply cell_ok_ext; eauto.
+      * destruct (Nat.lt_ge_cases r (n + m)) as [Lv|Gv].
+        -- assert (Hs : In r (seq n m)) by (apply in_seq; lia).
+           rewrite Forall_forall in KV. destruct (KV r Hs) as (c' & Hc' & Kc'). rewrite Hc in Hc'. inversion Hc'; subst.
+           apply leaf_cell_ok; auto.
+        -- assert (r = n + m \/ r = length h2).
+           { apply nth_error_some_lt in Hc. rewrite app_length in Hc. simpl in Hc. lia. }
+           destruct H as [-> | ->]; [rewrite N1 in Hc|rewrite N3 in Hc]; inversion Hc; subst; simpl; auto.
+    + split; simpl; [right; eexists; split; [exact Ni|reflexivity]|eexists; split; [exact N3|reflexivity]].
+    + eapply swf_ext; eauto.
+Qed.
+
+(* ---------- link_with ---------- *)
+Definition selected (h : heap) (b : stream) (fl ph tp : bool) : list ref :=
+  (if fl then data_cells h b else []) ++ (if ph then phase_cells h b else []) ++ (if tp then [tc b] else []).
+
+Lemma in_app3 {A} (x : A) l1 l2 l3 : In x (l1 ++ l2 ++ l3) <-> In x l1 \/ In x l2 \/ In x l3.
+Proof. rewrite !in_app_iff. tauto. Qed.
+
+Lemma link_lemma h a b fl ph tp h' a' e : hwf h -> swf h a -> swf h b ->
+  disjoint (footprint h a) (footprint h b) -> is_multi h a = is_multi h b ->
+  link_with h a b fl ph tp = (h', a', e) ->
+  e = None /\ (forall r, shared h' a' b r <-> In r (selected h b fl ph tp)) /\
+  obs h' b = obs h b /\ hwf h' /\ swf h' a' /\ swf h' b.
+Proof.
+  intros W SA SB D KM L.
+  assert (NI : imol a <> imol b).
+  { intros E. apply (D (imol a)); [apply imol_in_fp|rewrite E; apply imol_in_fp]. }
+  assert (LI : imol a < length h) by (apply (footprint_lt h a); auto; apply imol_in_fp).
+  assert (NIB : ~ In (imol a) (footprint h b)) by (apply D; apply imol_in_fp).
+  assert (STB : forall c, frame h (wr h (imol a) c) [imol a]) by (intros c; apply frame_wr; simpl; auto).
+  assert (FB : forall c, footprint (wr h (imol a) c) b = footprint h b /\ obs (wr h (imol a) c) b = obs h b).
+  { intros c. destruct (stream_stable h _ [imol a] b [] W SB (STB c)) as [A B].
+    - intros r Hr [<-|[]]. contradiction.
+    - split; auto. apply obs_of_observe; auto. }
+  unfold is_multi in KM.
+  destruct (swf_cases _ _ SA) as [[(k & pb & d & Hi)|(k & phs & d & Hi)] (T & P & Ht)];
+  destruct (swf_cases _ _ SB) as [[(kb & pbb & db & Hb)|(kb & phsb & db & Hb)] (Tb & Pb & Htb)];
+    rewrite Hi, Hb in KM; try discriminate; unfold link_with in L; rewrite Hi, Hb in L; inversion L; subst h' a' e; clear L.
+  - (* single phase *)
+    destruct (footprint_chem _ _ _ _ _ W Hi) as [Kpa Kda]. destruct (footprint_chem _ _ _ _ _ W Hb) as [Kpb Kdb].
+    set (c := CIdxC k (if ph then pbb else pb) (if fl then db else d)).
+    destruct (FB c) as [FBc OBc].
+    assert (Ni : nth_error (wr h (imol a) c) (imol a) = Some c) by (apply wr_same; auto).
+    assert (EX : ext h (wr h (imol a) c)).
+    { apply ext_wr. intros c0 H0. rewrite Hi in H0. inversion H0; reflexivity. }
+    assert (FPB : footprint h b = [imol b; db; pbb; tc b]) by (unfold footprint; rewrite Hb; reflexivity).
+    assert (FPA : footprint h a = [imol a; d; pb; tc a]) by (unfold footprint; rewrite Hi; reflexivity).
+    assert (FA : footprint (wr h (imol a) c) (if tp then set_tc a (tc b) else a)
+                 = [imol a; if fl then db else d; if ph then pbb else pb; if tp then tc b else tc a]).
+    { unfold footprint. destruct tp; simpl imol; simpl tc; rewrite Ni; reflexivity. }
+    assert (D2 : ~ In d (footprint h b)) by (apply D; rewrite FPA; simpl; auto).
+    assert (D3 : ~ In pb (footprint h b)) by (apply D; rewrite FPA; simpl; auto).
+    assert (D4 : ~ In (tc a) (footprint h b)) by (apply D; rewrite FPA; simpl; auto).
+    split; auto. split; [|split; [|split; [|split]]]; auto.
+    + intros r. unfold shared, selected, data_cells, phase_cells. rewrite FA, FBc, Hb. rewrite in_app3.
+      rewrite FPB in *. clear - NIB D2 D3 D4.
+      destruct fl, ph, tp; simpl in *; intuition congruence.
+    + apply hwf_wr; auto.
+      * intros c0 H0. rewrite Hi in H0. inversion H0; reflexivity.
+      * unfold c; simpl. destruct ph, fl; auto.
+    + split.
+      * left. destruct tp; simpl; eexists; split; [exact Ni|reflexivity|exact Ni|reflexivity].
+      * destruct tp; simpl; apply EX; [apply SB|apply SA].
+    + eapply swf_ext; eauto.
+  - (* multi-phase *)
+    destruct (footprint_multi _ _ _ _ _ W Hi) as [Kda Kra]. destruct (footprint_multi _ _ _ _ _ W Hb) as [Kdb Krb].
+    set (c := CIdxM k phs (if fl then db else d)).
+    destruct (FB c) as [FBc OBc].
+    assert (Ni : nth_error (wr h (imol a) c) (imol a) = Some c) by (apply wr_same; auto).
+    assert (EX : ext h (wr h (imol a) c)).
+    { apply ext_wr. intros c0 H0. rewrite Hi in H0. inversion H0; reflexivity. }
+    assert (FPB : footprint h b = imol b :: db :: rdrows h db ++ [tc b]) by (unfold footprint; rewrite Hb; reflexivity).
+    assert (FPA : footprint h a = imol a :: d :: rdrows h d ++ [tc a]) by (unfold footprint; rewrite Hi; reflexivity).
+    assert (RR : forall x, is_kind h x 1 -> rdrows (wr h (imol a) c) x = rdrows h x).
+    { intros x Kx. unfold rdrows. rewrite wr_other; auto. intros E. rewrite <- E in Kx.
+      assert (is_kind h (imol a) 5) by (eexists; split; [exact Hi|reflexivity]).
+      pose proof (is_kind_fun _ _ _ _ Kx H). lia. }
+    assert (FA : footprint (wr h (imol a) c) (if tp then set_tc a (tc b) else a)
+                 = imol a :: (if fl then db else d) :: rdrows h (if fl then db else d) ++ [if tp then tc b else tc a]).
+    { unfold footprint. destruct tp, fl; simpl imol; simpl tc; rewrite Ni; unfold c; rewrite RR; auto. }
+    assert (D2 : ~ In d (footprint h b)) by (apply D; rewrite FPA; simpl; auto).
+    assert (D3 : forall x, In x (rdrows h d) -> ~ In x (footprint h b)).
+    { intros x Hx. apply D. rewrite FPA. simpl. right; right. apply in_or_app; auto. }
+    assert (D4 : ~ In (tc a) (footprint h b)).
+    { apply D. rewrite FPA. simpl. right; right. apply in_or_app; right; simpl; auto. }
+    split; auto. split; [|split; [|split; [|split]]]; auto.
+    + intros r. unfold shared, selected, data_cells, phase_cells. rewrite FA, FBc, Hb. rewrite in_app3.
+      split.
+      * intros [HA HB]. simpl in HA. destruct HA as [E|[E|HA]].
+        -- subst r. contradiction.
+        -- subst r. destruct fl; [left; simpl; auto|contradiction].
+        -- apply in_app_or in HA. destruct HA as [HA|[E|[]]].
+           ++ destruct fl; [left; simpl; auto|exfalso; eapply D3; eauto].
+           ++ subst r. destruct tp; [right; right; simpl; auto|contradiction].
+      * rewrite FPB. intros [H1|[H1|H1]].
+        -- destruct fl; [|destruct H1]. simpl in H1. destruct H1 as [<-|H1]; split; simpl; auto.
+           ++ right; right. apply in_or_app; auto.
+           ++ right; right. apply in_or_app; auto.
+        -- destruct ph; destruct H1.
+        -- destruct tp; [|destruct H1]. destruct H1 as [<-|[]]. split; simpl; right; right; apply in_or_app; right; simpl; auto.
+    + apply hwf_wr; auto.
+      * intros c0 H0. rewrite Hi in H0. inversion H0; reflexivity.
+      * unfold c; simpl. destruct fl; auto.
+    + split.
+      * right. destruct tp; simpl; eexists; split; [exact Ni|reflexivity|exact Ni|reflexivity].
+      * destruct tp; simpl; apply EX; [apply SB|apply SA].
+    + eapply swf_ext; eauto.
+Qed.
+
+(* ---------- flow_proxy ---------- *)
+Lemma flow_proxy_lemma h s h2 p : hwf h -> swf h s -> flow_proxy h s = Ok (h2, p) ->
+  (forall r, shared h2 p s r <-> In r (data_cells h s)) /\
+  obs h2 p = obs h s /\ obs h2 s = obs h s /\ hwf h2 /\ swf h2 p /\ swf h2 s.
+Proof.
+  intros W SW FP.
+  assert (ORIG : forall e, obs (h ++ e) s = obs h s /\ footprint (h ++ e) s = footprint h s).
+  { intros e. destruct (stream_stable h (h ++ e) [] s [] W SW (frame_app _ _ _)) as [A B]; [intros r _ []|].
+    split; auto. apply obs_of_observe; auto. }
+  assert (LT : tc s < length h) by (apply (footprint_lt h s); auto; apply tc_in_fp).
+  destruct (swf_cases _ _ SW) as [[(k & pb & d & Hi)|(k & phs & d & Hi)] (T & P & Ht)]; unfold flow_proxy in FP; rewrite Hi in FP.
+  - destruct (footprint_chem _ _ _ _ _ W Hi) as [Kp Kd].
+    destruct (tc_copy _ (tc s)) as [[h3 t]|] eqn:TC; cbn [bind] in FP; [|discriminate].
+    eapply tc_copy_ok in TC; [|rewrite nth_error_app_l; [exact Ht|auto]].
+    destruct TC as [-> ->]. inversion FP; subst h2 p; clear FP.
+    rewrite <- app_assoc. simpl app. rewrite app_length. simpl length.
+    set (e := [CPhase (rdphase h pb); CIdxC k (length h) d; CTC T P]).
+    assert (N0 : nth_error (h ++ e) (length h) = Some (CPhase (rdphase h pb))) by (rewrite nth_error_app_new0; reflexivity).
+    assert (N1 : nth_error (h ++ e) (S (length h)) = Some (CIdxC k (length h) d)).
+    { replace (S (length h)) with (length h + 1) by lia. rewrite nth_error_app_new. reflexivity. }
+    assert (N2 : nth_error (h ++ e) (length h + 2) = Some (CTC T P)) by (rewrite nth_error_app_new; reflexivity).
+    assert (Nd : nth_error (h ++ e) d = nth_error h d) by (apply nth_error_app_l; eapply is_kind_lt; eauto).
+    destruct (ORIG e) as [O1 O2].
+    assert (FA : footprint (h ++ e) (mkstream (S (length h)) (length h + 2) 0 [] IdNone (thermo s))
+                 = [S (length h); d; length h; length h + 2]).
+    { unfold footprint. simpl imol; simpl tc. rewrite N1. reflexivity. }
+    split; [|split; [|split; [|split; [|split]]]]; auto.
+    + intros r. unfold shared, data_cells. rewrite FA, O2, Hi. split.
+      * intros [HA HB]. pose proof (footprint_lt _ _ _ W SW HB). simpl in HA.
+        destruct HA as [E|[E|[E|[E|[]]]]]; subst; simpl; auto; lia.
+      * intros [<-|[]]. split; simpl; auto. unfold footprint. rewrite Hi. simpl; auto.
+    + unfold obs, observe. simpl imol; simpl tc. rewrite N1, Hi. unfold rdtc. rewrite N2, Ht.
+      cbn [o_multi o_phases o_rows o_T o_P]. unfold rdphase at 1. rewrite N0. unfold rdvec. rewrite Nd. reflexivity.
+    + apply hwf_app; auto. intros c [<-|[<-|[<-|[]]]]; simpl; auto. split.
+      * eexists; split; [exact N0|reflexivity].
+      * apply (ext_app h e). exact Kd.
+    + split; simpl; [left; eexists; split; [exact N1|reflexivity]|eexists; split; [exact N2|reflexivity]].
+    + eapply swf_ext; [apply ext_app|auto].
+  - destruct (footprint_multi _ _ _ _ _ W Hi) as [Kd Kr].
+    destruct (tc_copy _ (tc s)) as [[h3 t]|] eqn:TC; cbn [bind] in FP; [|discriminate].
+    eapply tc_copy_ok in TC; [|rewrite nth_error_app_l; [exact Ht|auto]].
+    destruct TC as [-> ->]. inversion FP; subst h2 p; clear FP.
+    rewrite <- app_assoc. simpl app. rewrite app_length. simpl length.
+    set (e := [CIdxM k phs d; CTC T P]).
+    assert (N0 : nth_error (h ++ e) (length h) = Some (CIdxM k phs d)) by (rewrite nth_error_app_new0; reflexivity).
+    assert (N1 : nth_error (h ++ e) (length h + 1) = Some (CTC T P)) by (rewrite nth_error_app_new; reflexivity).
+    assert (Nd : nth_error (h ++ e) d = nth_error h d) by (apply nth_error_app_l; eapply is_kind_lt; eauto).
+    assert (Rd : rdrows (h ++ e) d = rdrows h d) by (unfold rdrows; rewrite Nd; reflexivity).
+    assert (Rv : map (rdvec (h ++ e)) (rdrows h d) = map (rdvec h) (rdrows h d)).
+    { apply map_ext_in. intros r Hr. unfold rdvec. rewrite nth_error_app_l; auto.
+      rewrite Forall_forall in Kr. eapply is_kind_lt; eauto. }
+    destruct (ORIG e) as [O1 O2].
+    assert (FA : footprint (h ++ e) (mkstream (length h) (length h + 1) 0 [] IdNone (thermo s))
+                 = length h :: d :: rdrows h d ++ [length h + 1]).
+    { unfold footprint. simpl imol; simpl tc. rewrite N0, Rd. reflexivity. }
+    split; [|split; [|split; [|split; [|split]]]]; auto.
+    + intros r. unfold shared, data_cells. rewrite FA, O2, Hi. split.
+      * intros [HA HB]. pose proof (footprint_lt _ _ _ W SW HB). simpl in HA.
+        destruct HA as [E|[E|HA]]; subst; simpl; auto; try lia.
+        apply in_app_or in HA. destruct HA as [HA|[E|[]]]; auto. lia.
+      * intros HD. split.
+        -- simpl in *. destruct HD as [<-|HD]; auto. right; right. apply in_or_app; auto.
+        -- unfold footprint. rewrite Hi. simpl in *. destruct HD as [<-|HD]; auto. right; right. apply in_or_app; auto.
+    + unfold obs, observe. simpl imol; simpl tc. rewrite N0, Hi. unfold rdtc. rewrite N1, Ht.
+      cbn [o_multi o_phases o_rows o_T o_P]. rewrite Rd, Rv. reflexivity.
+    + apply hwf_app; auto. intros c [<-|[<-|[]]]; simpl; auto. apply (ext_app h e). exact Kd.
+    + split; simpl; [right; eexists; split; [exact N0|reflexivity]|eexists; split; [exact N1|reflexivity]].
+    + eapply swf_ext; [apply ext_app|auto].
+Qed.
+
+(* ================================================================= decidable well-formedness (for the examples) *)
+Definition kind_atb (h : heap) (r : ref) (k : nat) : bool :=
+  match nth_error h r with Some c => Nat.eqb (kind c) k | None => false end.
+Definition cell_okb (h : heap) (c : cell) : bool :=
+  match c with
+  | CArr rows => forallb (fun r => kind_atb h r 0) rows
+  | CIdxC _ pb d => kind_atb h pb 2 && kind_atb h d 0
+  | CIdxM _ _ d => kind_atb h d 1
+  | _ => true
+  end.
+Definition hwfb (h : heap) : bool := forallb (cell_okb h) h.
+Definition swfb (h : heap) (s : stream) : bool :=
+  (kind_atb h (imol s) 4 || kind_atb h (imol s) 5) && kind_atb h (tc s) 3.
+Definition disjointb (a b : list ref) : bool := forallb (fun r => negb (existsb (Nat.eqb r) b)) a.
+
+Lemma kind_atb_ok h r k : kind_atb h r k = true -> is_kind h r k.
+Proof.
+  unfold kind_atb. destruct (nth_error h r) as [c|] eqn:E; [|discriminate].
+  intros H. apply Nat.eqb_eq in H. exists c; auto.
+Qed.
+Lemma hwfb_ok h : hwfb h = true -> hwf h.
+Proof.
+  unfold hwfb. rewrite forallb_forall. intros H r c Hc. apply nth_error_In in Hc. apply H in Hc.
+  destruct c; simpl in *; auto.
+  - rewrite forallb_forall in Hc. apply Forall_forall. intros x Hx. apply kind_atb_ok; auto.
+  - apply andb_prop in Hc. destruct Hc. split; apply kind_atb_ok; auto.
+  - apply kind_atb_ok; auto.
+Qed.
+Lemma swfb_ok h s : swfb h s = true -> swf h s.
+Proof.
+  unfold swfb. intros H. apply andb_prop in H. destruct H as [A B]. apply orb_prop in A.
+  split; [destruct A; [left|right]|]; apply kind_atb_ok; auto.
+Qed.
+Lemma disjointb_ok a b : disjointb a b = true -> disjoint a b.
+Proof.
+  unfold disjointb. rewrite forallb_forall. intros H r Ha Hb. apply H in Ha.
+  apply negb_true_iff in Ha. assert (existsb (Nat.eqb r) b = true); [|congruence].
+  apply existsb_exists. exists r. split; auto. apply Nat.eqb_refl.
+Qed.
+
+(* ================================================================= copy_like, Stream <- Stream *)
+Lemma find_pos_nth c l i : find_pos c l = Some i -> nth_error l i = Some c.
+Proof.
+  revert i; induction l as [|x l IH]; intros i; simpl; [discriminate|].
+  destruct (Nat.eqb c x) eqn:E.
+  - intros H; inversion H; subst. apply Nat.eqb_eq in E. subst. reflexivity.
+  - destruct (find_pos c l) as [j|]; simpl; [|discriminate]. intros H; inversion H; subst. simpl. auto.
+Qed.
+Lemma find_pos_none c l : find_pos c l = None -> memb c l = false.
+Proof.
+  induction l as [|x l IH]; simpl; auto. destruct (Nat.eqb c x); [discriminate|].
+  destruct (find_pos c l); simpl; [discriminate|auto].
+Qed.
+
+Local Open Scope Q_scope.
+(* the chemical-by-chemical reading of index_overlap: same flow for every chemical of either package *)
+Lemma flow_of_remap tgt src v c : missing tgt src v = false ->
+  flow_of tgt (remap tgt src v) c == flow_of src v c.
+Proof.
+  intros M. unfold flow_of at 1. destruct (find_pos c tgt) as [i|] eqn:F.
+  - apply find_pos_nth in F. unfold remap, nthq.
+    assert (E : nth_error (map (flow_of src v) tgt) i = Some (flow_of src v c)).
+    { rewrite nth_error_map, F. reflexivity. }
+    rewrite (nth_error_nth _ _ 0 E). reflexivity.
+  - apply find_pos_none in F. unfold flow_of. destruct (find_pos c src) as [j|] eqn:G; [|reflexivity].
+    apply find_pos_nth in G. unfold nthq.
+    destruct (nth_error v j) as [x|] eqn:V.
+    + rewrite (nth_error_nth _ _ 0 V).
+      unfold missing in M. rewrite <- not_true_iff_false in M.
+      destruct (qzerob x) eqn:Z; [apply qzerob_true in Z; rewrite Z; reflexivity|].
+      exfalso. apply M. apply existsb_exists. exists (c, x). split.
+      * clear - G V. revert v j G V. induction src as [|s src IH]; intros v [|j] G V; simpl in *; try discriminate.
+        -- destruct v; simpl in *; [discriminate|]. inversion G; inversion V; subst. auto.
+        -- destruct v; simpl in *; [discriminate|]. right. eapply IH; eauto.
+      * simpl. rewrite Z, F. reflexivity.
+    + rewrite nth_overflow; [reflexivity|]. apply nth_error_None. exact V.
+Qed.
+Local Close Scope Q_scope.
+
+Lemma upd_upd {A} (l : list A) i x y : upd (upd l i x) i y = upd l i y.
+Proof. revert i; induction l as [|a l IH]; intros [|i]; simpl; auto. f_equal. apply IH. Qed.
+
+Section CopyLike.
+Variable pk : list (list nat).
+
+(* Stream.copy_like(Stream), same or different property package: phase, T, P and the flow of EVERY chemical become
+   those of the source; the source is unchanged.  Preconditions: the streams share nothing, the source phase is a
+   valid phase, and (superset precondition) every chemical with a non-zero source flow exists in the target package *)
+Lemma copy_like_ss h a b ka pba da kb pbb db h' a' e :
+  hwf h -> swf h a -> swf h b -> disjoint (footprint h a) (footprint h b) ->
+  nth_error h (imol a) = Some (CIdxC ka pba da) -> nth_error h (imol b) = Some (CIdxC kb pbb db) ->
+  valid_phase (rdphase h pbb) = true ->
+  (ka <> kb -> missing (chems pk ka) (chems pk kb) (rdvec h db) = false) ->
+  copy_like pk h a b = (h', a', e) ->
+  e = None /\ a' = a /\ rdphase h' pba = rdphase h pbb /\ rdtc h' (tc a) = rdtc h (tc b) /\
+  (forall c, (flow_of (chems pk ka) (rdvec h' da) c == flow_of (chems pk kb) (rdvec h db) c)%Q) /\
+  obs h' b = obs h b.
+Proof.
+  intros W SA SB D Hi Hb VP MS CL.
+  destruct (footprint_chem _ _ _ _ _ W Hi) as [Kpa Kda]. destruct (footprint_chem _ _ _ _ _ W Hb) as [Kpb Kdb].
+  destruct (swf_cases _ _ SA) as [_ (Ta & Pa & Hta)]. destruct (swf_cases _ _ SB) as [_ (Tb & Pb & Htb)].
+  assert (FPA : footprint h a = [imol a; da; pba; tc a]) by (unfold footprint; rewrite Hi; reflexivity).
+  assert (FPB : footprint h b = [imol b; db; pbb; tc b]) by (unfold footprint; rewrite Hb; reflexivity).
+  assert (NE : imol a <> imol b).
+  { intros E. apply (D (imol a)); [apply imol_in_fp|rewrite E; apply imol_in_fp]. }
+  assert (Ndd : da <> db). { intros E. apply (D da); [rewrite FPA|rewrite FPB, E]; simpl; auto. }
+  assert (Kta : is_kind h (tc a) 3) by apply SA.
+  assert (Ndp : da <> pba). { intros E. rewrite E in Kda. pose proof (is_kind_fun _ _ _ _ Kda Kpa). lia. }
+  assert (Ndt : da <> tc a). { intros E. rewrite E in Kda. pose proof (is_kind_fun _ _ _ _ Kda Kta). lia. }
+  assert (Npt : pba <> tc a). { intros E. rewrite E in Kpa. pose proof (is_kind_fun _ _ _ _ Kpa Kta). lia. }
+  assert (Lda : da < length h) by (eapply is_kind_lt; eauto).
+  assert (Lpa : pba < length h) by (eapply is_kind_lt; eauto).
+  assert (Lta : tc a < length h) by (eapply is_kind_lt; eauto).
+  (* the three writes *)
+  assert (SHAPE : exists v, (forall c, (flow_of (chems pk ka) v c == flow_of (chems pk kb) (rdvec h db) c)%Q) /\
+                  h' = wr (wr (wr h da (CVec v)) pba (CPhase (rdphase h pbb))) (tc a) (CTC Tb Pb) /\ a' = a /\ e = None).
+  { unfold copy_like in CL. rewrite Hi, Hb in CL. unfold chem_copy_like in CL. rewrite Hi in CL.
+    assert (Q : opt_eqb Nat.eqb (Some (imol b)) (Some (imol a)) = false).
+    { simpl. apply Nat.eqb_neq. auto. }
+    cbn [c_self c_pkg c_data c_phase] in CL. rewrite Q in CL. rewrite VP in CL.
+    assert (Q2 : Nat.eqb da db = false) by (apply Nat.eqb_neq; auto). rewrite Q2 in CL.
+    assert (TCL : forall hh, tc_copy_like hh (tc a) (tc b) = wr hh (tc a) (CTC (fst (rdtc hh (tc b))) (snd (rdtc hh (tc b))))).
+    { intros hh. unfold tc_copy_like. destruct (rdtc hh (tc b)); reflexivity. }
+    assert (RTB : forall x c1 y c2, x <> tc b -> y <> tc b -> rdtc (wr (wr h x c1) y c2) (tc b) = (Tb, Pb)).
+    { intros x c1 y c2 N1 N2. unfold rdtc. rewrite !wr_other by auto. rewrite Htb. reflexivity. }
+    assert (Ntb1 : da <> tc b). { intros E. apply (D da); [rewrite FPA|rewrite FPB, E]; simpl; auto. }
+    assert (Ntb2 : pba <> tc b). { intros E. apply (D pba); [rewrite FPA|rewrite FPB, E]; simpl; auto. }
+    destruct (Nat.eqb ka kb) eqn:KK.
+    - apply Nat.eqb_eq in KK. subst kb. inversion CL; subst h' a' e; clear CL.
+      exists (rdvec h db). split; [intros c; reflexivity|]. rewrite TCL, RTB by auto. auto.
+    - apply Nat.eqb_neq in KK. specialize (MS KK).
+      assert (RV : rdvec (wr h da (CVec (zero_like (rdvec h da)))) db = rdvec h db).
+      { unfold rdvec. rewrite wr_other; auto. }
+      rewrite RV in CL. rewrite MS in CL. inversion CL; subst h' a' e; clear CL.
+      exists (remap (chems pk ka) (chems pk kb) (rdvec h db)). split; [intros c; apply flow_of_remap; auto|].
+      rewrite TCL.
+      assert (WW : wr (wr h da (CVec (zero_like (rdvec h da)))) da (CVec (remap (chems pk ka) (chems pk kb) (rdvec h db)))
+                   = wr h da (CVec (remap (chems pk ka) (chems pk kb) (rdvec h db)))).
+      { unfold wr. apply upd_upd. }
+      rewrite WW. rewrite RTB by auto. auto. }
+  destruct SHAPE as (v & FL & -> & -> & ->).
+  split; auto. split; auto.
+  assert (L1 : length (wr h da (CVec v)) = length h) by apply wr_length.
+  split; [|split; [|split]].
+  - unfold rdphase. rewrite wr_other by auto. rewrite wr_same by (rewrite L1; auto). reflexivity.
+  - unfold rdtc at 1. rewrite wr_same by (rewrite !wr_length; auto). unfold rdtc. rewrite Htb. reflexivity.
+  - intros c. unfold rdvec at 1. rewrite wr_other by auto. rewrite wr_other by auto. rewrite wr_same by auto. apply FL.
+  - assert (FR : frame h (wr (wr (wr h da (CVec v)) pba (CPhase (rdphase h pbb))) (tc a) (CTC Tb Pb)) (footprint h a)).
+    { intros r Lr Nr. rewrite FPA in Nr. rewrite !wr_other; auto; intros E; apply Nr; subst; simpl; auto. }
+    destruct (stream_stable h _ (footprint h a) b [] W SB FR) as [_ OB].
+    + intros r Hr Ha. exact (D r Ha Hr).
+    + apply obs_of_observe. exact OB.
+Qed.
+End CopyLike.
+
+(* ================================================================= reduce: the plain fields *)
+Section Reduce.
+Variable pk : list (list nat).
+
+Definition same_fields (a b : stream) : Prop :=
+  price a = price b /\ cf a = cf b /\ sid_ a = sid_ b /\ thermo a = thermo b.
+
+Lemma set_phases_fields h s phs h' s' e : set_phases pk h s phs = (h', s', e) -> same_fields s' s.
+Proof.
+  unfold set_phases, same_fields.
+  repeat match goal with
+         | |- context [match ?x with _ => _ end] => destruct x
+         end; intros H; inversion H; subst; simpl; auto.
+Qed.
+
+(* price, characterization factors, thermo and a given ID survive __reduce__ / from_data / __init__ *)
+Lemma reduce_fields h s h' n : reduce pk h s = Ok (h', n) ->
+  price n = price s /\ cf n = cf s /\ thermo n = thermo s /\
+  sid_ n = match sid_ s with IdNone => IdAuto | x => x end.
+Proof.
+  unfold reduce. destruct (imol_copy h (imol s)) as [[h1 dimol]|]; cbn [bind]; [|discriminate].
+  destruct (rdtc h (tc s)) as [T P].
+  set (newid := match sid_ s with IdNone => IdAuto | x => x end).
+  assert (TV : tc_valid T0 P0 = true) by (vm_compute; reflexivity).
+  match goal with |- context [bind ?x _] => destruct x as [[h2 n0]|] eqn:N end; cbn [bind]; [|discriminate].
+  assert (F0 : price n0 = price s /\ cf n0 = cf s /\ thermo n0 = thermo s /\ sid_ n0 = newid).
+  { destruct (is_multi h s).
+    - unfold new_multi in N. rewrite TV in N.
+      change (phase_tuple [3; 2]) with (Ok (A := list nat) [2; 3]) in N. cbn [bind] in N.
+      destruct (mat_blank _ _ _ _) as [h3 m]. cbn [fill_rows bind] in N. inversion N; subst. simpl. auto.
+    - unfold new_single in N. rewrite TV in N. destruct (chem_new _ _ _ _) as [h3 m]. inversion N; subst. simpl. auto. }
+  destruct (set_phases pk h2 n0 _) as [[h3 n1] e] eqn:SP.
+  apply set_phases_fields in SP. destruct SP as (A & B & C & D).
+  destruct e; [discriminate|]. destruct (imol_copy_like pk h3 (imol n1) dimol) as [h4 e2]. destruct e2; [discriminate|].
+  intros H; inversion H; subst. destruct F0 as (F1 & F2 & F3 & F4).
+  repeat split; congruence.
+Qed.
+End Reduce.
+
+(* ================================================================= statements kept for Props.v *)
+(* flow of chemical c in phase p of stream s (0 when the stream has no such phase or chemical) *)
+Definition phase_flow (pk : list (list nat)) (h : heap) (s : stream) (p c : nat) : Q :=
+  match nth_error h (imol s) with
+  | Some (CIdxC k pb d) => if Nat.eqb (rdphase h pb) p then flow_of (chems pk k) (rdvec h d) c else 0%Q
+  | Some (CIdxM k phs d) =>
+    match find_pos p phs with
+    | Some i => flow_of (chems pk k) (rdvec h (nth i (rdrows h d) 0)) c
+    | None => 0%Q
+    end
+  | _ => 0%Q
+  end.
+Definition stream_phases (h : heap) (s : stream) : list nat :=
+  match nth_error h (imol s) with
+  | Some (CIdxC _ pb _) => [rdphase h pb]
+  | Some (CIdxM _ phs _) => phs
+  | _ => []
+  end.
+Definition stream_pkg (h : heap) (s : stream) : nat :=
+  match nth_error h (imol s) with Some (CIdxC k _ _) => k | Some (CIdxM k _ _) => k | _ => 0 end.
+(* lower-case valid phases, rows aligned with phases *)
+Definition plain (h : heap) (s : stream) : Prop :=
+  Forall (fun p => p = 2 \/ p = 3 \/ p = 4) (stream_phases h s) /\
+  length (data_rows h s) = length (stream_phases h s).
